@@ -323,6 +323,8 @@ main (int argc, char *argv[])
     if (include_file) {
       fprintf(output, "#include <%s>\n", include_file);
     }
+    /* the C code of sqrtf/sqrtd calls sqrt() */
+    fprintf(output, "#include <math.h>\n");
     fprintf(output, "\n");
     fprintf(output, "%s", orc_target_c_get_typedefs ());
     fprintf(output, "\n");
